@@ -403,8 +403,9 @@ def canon(ctx):
                 o = origin(w, t['args'][1])
                 if [a for a in o.atoms if a[0] != 'const']:
                     n += 1
-                    if o.has_arith() or [x for x in o.flags if x.startswith('cast:')]:
-                        bad.append('%s at %s' % (o.describe()[:60], short_loc(t.get('span'))))
+                    xform = [a[1] for a in o.atoms if a[0] == 'call' and not strip_generics(a[1]).endswith(('Name::fully_qualified_name', 'Name::name', 'Name::namespace', 'Iterator>::next', 'Iterator::next', 'Deref>::deref', 'Deref::deref', 'String::as_str', 'AsRef>::as_ref'))]
+                    if o.has_arith() or [x for x in o.flags if x.startswith('cast:')] or xform:
+                        bad.append('%s at %s' % (o.describe()[:80], short_loc(t.get('span'))))
             elif c.endswith('::write_fmt'):
                 n += 1
                 flds = deep_fields(w, t['args'][1], 4)
@@ -420,8 +421,8 @@ def canon(ctx):
                         xc = strip_generics(cname(xt))
                         if xc.endswith('Argument::new_display'):
                             ao = origin(w, xt['args'][0])
-                            if ao.has_arith() or [x for x in ao.flags if x.startswith('cast:IntToInt')]:
-                                bad.append('size displayed after %s' % sorted(x for x in ao.flags if x.startswith(('cast:IntToInt', 'arith:'))))
+                            if ao.has_arith() or [x for x in ao.flags if x.startswith('cast:IntToInt')] or [a for a in ao.atoms if a[0] == 'call']:
+                                bad.append('size displayed after %s' % (sorted(x for x in ao.flags if x.startswith(('cast:IntToInt', 'arith:'))) + [a[1] for a in ao.atoms if a[0] == 'call']))
                         if xc.endswith('fmt::Arguments::new') or xc.endswith('fmt::Arguments::new_v1') or xc.endswith('fmt::Arguments::new_const'):
                             tmpl = None
                             to = origin(w, xt['args'][0])
